@@ -30,27 +30,32 @@ PROGRAMS = [
 
 
 def tokens_of(text):
-    """(type, value, start, end, depth_before, depth_after) of every token the real lexer returns (None on lexical error)"""
-    lx = PARSER.lex.clone()
-    for k, v in (('lexpos', 0), ('lineno', 1), ('paren_count', 0)):
-        setattr(lx, k, v)
-    lx.input(text)
+    """(type, value, start, end, depth_before, depth_after) of every token the real lexer hands to the real parser while
+    SqParser.parse(text) runs (None if that fails).  The lexer is driven by parse() itself, so whatever state parse()
+    prepares on it (or on a clone of it) is prepared here too."""
+    cls = type(PARSER.lex)
+    orig = cls.token
     out = []
-    depth = 0
-    try:
-        while True:
-            t = lx.token()
-            if t is None:
-                break
-            raw_len = lx.lexpos - t.lexpos
-            d0 = depth
+    depth = [0]
+
+    def recording(self):
+        t = orig(self)
+        if t is not None:
+            d0 = depth[0]
             if t.type in ('LPAREN', 'LBRACKET', 'LBRACE'):
-                depth += 1
+                depth[0] += 1
             elif t.type in ('RPAREN', 'RBRACKET', 'RBRACE'):
-                depth -= 1
-            out.append((t.type, t.value, t.lexpos, lx.lexpos, d0, depth))
-    except ParserError:
-        return None
+                depth[0] -= 1
+            out.append((t.type, t.value, t.lexpos, self.lexpos, d0, depth[0]))
+        return t
+    cls.token = recording
+    try:
+        try:
+            PARSER.parse(text)
+        except Exception:
+            return None
+    finally:
+        cls.token = orig
     return out
 
 
@@ -216,97 +221,121 @@ with _h.native():
 
 def layout_rewrite(ri: int, pos: int) -> None:
     """
-    pre: 0 <= ri < 17 and 0 <= pos < 60
+    pre: 0 <= ri < 17 and pos == 0
     post: True
     """
+    # the solver chooses the rewrite kind; every applicable position of that rewrite is then tried natively in one path
     hlib.enter(locals())
     pi = hlib.PARAM["program"]
     ri = hlib.concrete(ri, 0, 16)
-    hlib.assume(pos < NPOS[(pi, ri)])
-    pos = hlib.concrete(pos, 0, 59)
+    hlib.assume(NPOS[(pi, ri)] > 0)
+    bad = None
     with hlib.native():
         base = PROGRAMS[pi]
-        new = rewrite(base, REWRITES[ri], pos)
-        if new is not None:
-            a, b = parse_outcome(base), parse_outcome(new)
-            a2, b2 = parse_outcome(base, CACHING), parse_outcome(new, CACHING)
-    hlib.assume(new is not None)
+        a, a2 = parse_outcome(base), parse_outcome(base, CACHING)
+        for q in range(NPOS[(pi, ri)]):
+            new = rewrite(base, REWRITES[ri], q)
+            if new is None:
+                break
+            b, b2 = parse_outcome(new), parse_outcome(new, CACHING)
+            if a != b:
+                bad = "layout rewrite %s at #%d changes the parsed program: %r -> %r" % (REWRITES[ri], q, base, new)
+            elif a2 != a or b2 != b:
+                bad = "a parser with a parse cache parses %r or %r differently" % (base, new)
+            if bad:
+                break
     assert a[0] == 'ok', "base program does not parse: %r" % (a,)
-    assert a == b, "layout rewrite %s at #%d changes the parsed program: %r -> %r" % (REWRITES[ri], pos, base, new)
-    assert a2 == a and b2 == b, "a parser with a parse cache parses %r or %r differently" % (base, new)
+    assert bad is None, bad
     hlib.done()
 
 
-STRAY = [')', ']', 'stray', '=>', '}', '1.5', ':', '$', '"', 'for', '))', '\x00']
+STRAY = [')', ']', 'stray', '=>', '}', '1.5', ':', '$', '"', 'for', '))', '\x00', '0', "''", ';', '\n', '.', ',', 'not', 'if', '%', '\\', '0.0', '==', '\r\n', '#']
+
+
+def _damage(pi, si, pos, sep, trunc, pre_list, cached, class_only):
+    """one damaged text through the real lexer+parser; returns a failure message or None ('skip' when pos is past the end)"""
+    P = CACHING if cached else PARSER
+    base = PROGRAMS[pi]
+    if sep == 1:
+        base = base.replace('\n', '\r\n')
+    elif sep == 2:
+        base = rewrite(base, 'semicolon_for_newline', 0) or base
+    toks = tokens_of(base)
+    if toks is None:
+        return "base program %r does not parse" % (base,)
+    bounds = sorted({t[2] for t in toks}) + [len(base)]
+    if pos >= len(bounds):
+        return 'skip'
+    b = bounds[pos]
+    text = base[:b] if trunc else base[:b] + ' ' + STRAY[si] + ' ' + base[b:]
+    if pre_list:
+        # an earlier, partly consumed list_names() on multi-line text with an open bracket must not matter
+        g = P.list_names("a = [1,\n 2,\n b(\n c")
+        next(g, None)
+        next(g, None)
+        list(P.list_names("x\ny\n(z"))
+    seen = {}
+    orig = P.yacc.errorfunc
+
+    def rec(p):
+        seen['tok'] = p
+        return orig(p)
+    P.yacc.errorfunc = rec
+    try:
+        try:
+            P.parse(text)
+            res = ('ok',)
+        except ParserError as e:
+            res = ('parser_error', str(e), seen.get('tok', 'none'))
+        except Exception as e:
+            res = ('other', type(e).__name__ + ': ' + str(e))
+    finally:
+        P.yacc.errorfunc = orig
+    if res[0] == 'other':
+        return "%r: %s" % (text, res[1])
+    if class_only:
+        return None
+    if res[0] == 'parser_error' and res[2] != 'none':
+        tok = res[2]
+        if tok is None:
+            if 'end of input' not in res[1].lower():
+                return "error at the very end of %r is not reported as unexpected end of input: %s" % (text, res[1])
+        else:
+            line = 1 + text[:tok.lexpos].count('\n')
+            if str(tok.value) not in res[1]:
+                return "message %r does not name the offending token %r" % (res[1], tok.value)
+            if ('line %d' % line) not in res[1]:
+                return "%r: message %r, but the offending token %r stands on physical line %d" % (text, res[1], tok.value, line)
+    return None
 
 
 def error_line(si: int, pos: int, sep: int, trunc: bool, pre_list: bool = False, cached: bool = False) -> None:
     """
-    pre: 0 <= si < 12 and 0 <= pos < 60 and 0 <= sep <= 2
+    pre: 0 <= si < 26 and pos == 0 and 0 <= sep <= 2
     post: True
     """
     # a valid program made invalid by a stray token at a token boundary (or truncated there): the message names the
-    # reported token's text and the physical line it stands on, whatever separators / bracketed line breaks precede it
+    # reported token's text and the physical line it stands on, whatever separators / bracketed line breaks precede it.
+    # The solver chooses stray token, separator variant, truncation, earlier list_names() and cache; every token
+    # boundary of the program is then damaged natively within the path.
     hlib.enter(locals())
     pi = hlib.PARAM["program"]
-    hlib.assume(pos < NBOUND[pi])
-    if hlib.PARAM.get("class_only"):
-        hlib.assume(hlib.deep() or si >= 7 or trunc)          # quick tier: the first 7 stray tokens are exercised (with the same class check) by C20
-    else:
-        hlib.assume(si < 7)
-    si, pos, sep = hlib.concrete(si, 0, 11), hlib.concrete(pos, 0, 59), hlib.concrete(sep, 0, 2)
+    class_only = bool(hlib.PARAM.get("class_only"))
+    si, sep = hlib.concrete(si, 0, 25), hlib.concrete(sep, 0, 2)
     trunc = True if trunc else False
     pre_list = True if pre_list else False
     cached = True if cached else False
+    hlib.assume(not trunc or si == 0)          # truncation ignores the stray token
     hlib.assume(hlib.deep() or not cached or (si <= 1 and not pre_list))
-    P = CACHING if cached else PARSER
     hlib.assume(hlib.deep() or not pre_list or (sep == 0 and si <= 2 and not trunc))
-    res = None
+    bad = None
     with hlib.native():
-        base = PROGRAMS[pi]
-        if sep == 1:
-            base = base.replace('\n', '\r\n')
-        elif sep == 2:
-            base = rewrite(base, 'semicolon_for_newline', 0) or base
-        toks = tokens_of(base)
-        bounds = sorted({t[2] for t in toks}) + [len(base)]
-        if pos < len(bounds):
-            b = bounds[pos]
-            text = base[:b] if trunc else base[:b] + ' ' + STRAY[si] + ' ' + base[b:]
-            if pre_list:
-                # an earlier, partly consumed list_names() on multi-line text with an open bracket must not matter
-                g = P.list_names("a = [1,\n 2,\n b(\n c")
-                next(g, None)
-                next(g, None)
-                list(P.list_names("x\ny\n(z"))
-            seen = {}
-            orig = P.yacc.errorfunc
-
-            def rec(p):
-                seen['tok'] = p
-                return orig(p)
-            P.yacc.errorfunc = rec
-            try:
-                try:
-                    P.parse(text)
-                    res = ('ok',)
-                except ParserError as e:
-                    res = ('parser_error', str(e), seen.get('tok', 'none'))
-                except Exception as e:
-                    res = ('other', type(e).__name__ + ': ' + str(e))
-            finally:
-                P.yacc.errorfunc = orig
-    hlib.assume(res is not None)
-    assert res[0] != 'other', "%r: %s" % (text, res[1])
-    if hlib.PARAM.get("class_only"):
-        hlib.done()
-        return
-    if res[0] == 'parser_error' and res[2] != 'none':
-        tok = res[2]
-        if tok is None:
-            assert 'end of input' in res[1].lower(), "error at the very end of %r is not reported as unexpected end of input: %s" % (text, res[1])
-        else:
-            line = 1 + text[:tok.lexpos].count('\n')
-            assert str(tok.value) in res[1], "message %r does not name the offending token %r" % (res[1], tok.value)
-            assert ('line %d' % line) in res[1], "%r: message %r, but the offending token %r stands on physical line %d" % (text, res[1], tok.value, line)
+        for q in range(NBOUND[pi] + 1):
+            r = _damage(pi, si, q, sep, trunc, pre_list, cached, class_only)
+            if r == 'skip':
+                break
+            if r is not None:
+                bad = r
+                break
+    assert bad is None, bad
     hlib.done()
